@@ -270,7 +270,12 @@ fn len_of(v: &LValue) -> LValue {
 pub fn sub_length(c: &mut Case) -> CaseResult {
     let ty = gen_len_type(&mut c.tape);
     let n = gen_rows(&mut c.tape);
-    let col = gen_column(&mut c.tape, &ty, true, n, &ValCfg::default());
+    // some columns with values well beyond 255 bytes
+    let vcfg = if c.tape.chance(90) { ValCfg { max_str: 600, ..ValCfg::default() } } else { ValCfg::default() };
+    let col = gen_column(&mut c.tape, &ty, true, n, &vcfg);
+    if col.iter().any(|v| matches!(v, LValue::Str(s) if s.len() > 255) || matches!(v, LValue::Bytes(b) if b.len() > 255)) {
+        c.class("value>255-bytes");
+    }
     c.class(format!("type:{}", ty.family()));
     c.describe(json!({"type": format!("{}", ty.arrow()), "col": short_vec(&col)}));
     if col.iter().any(|v| matches!(v, LValue::Str(s) if !s.is_ascii())) {
